@@ -12,7 +12,8 @@
 //! usage: c11 run <seed> <quick|thorough>
 //!        c11 replay '<json {"history": "b:0 rc:0 …"}>'
 //!        c11 worker <random|exh|one|vg> …      (crash-isolated children)
-use roto::{FileTree, List, NoCtx, Package, RotoString, Runtime, TypedFunc, Val, library};
+use roto::{Context, Ctx, FileTree, List, NoCtx, Package, RotoString, Runtime, TypedFunc, Val, library};
+use std::net::IpAddr;
 use rotov_harness::driver::Driver;
 use rotov_harness::worker::{Ended, run_batches, run_worker_keep_stdout};
 use rotov_harness::{Prng, Report};
@@ -98,6 +99,15 @@ fn lit_f_a(k: u32) -> String { format!("f-string of version {k} starts here <") 
 fn lit_f_b() -> String { "> and has a long tail that is a literal piece too".into() }
 fn list_lit(k: u32) -> Vec<u32> { vec![3, 1, 4, 1, 5, 9, 2, 6, 5, 3, 5, k, 1000 + k] }
 fn list_const(k: u32) -> Vec<u32> { vec![2, 7, 1, 8, 2, 8, k] }
+/// IP address literals are emitted as raw initialiser bytes (`Initialize`)
+fn ip_lits(k: u32) -> [String; 2] { [format!("10.{}.3.4", k % 250), format!("2001:db8:85a3::{:x}", 0x1000 + k)] }
+fn ipsum_of(a: &IpAddr) -> u32 {
+    let bytes: Vec<u8> = match a {
+        IpAddr::V4(x) => x.octets().to_vec(),
+        IpAddr::V6(x) => x.octets().to_vec(),
+    };
+    bytes.iter().enumerate().fold(11u32, |a, (i, b)| a.wrapping_mul(13).wrapping_add(*b as u32 ^ i as u32)) % 100_000
+}
 /// what the data part of `main` adds up to
 /// (the List[Tk]-typed script constant's tracked element counts as script constant #n)
 fn data_value(k: u32) -> u32 {
@@ -108,6 +118,7 @@ fn data_value(k: u32) -> u32 {
         + ssum_of(&format!("{}{}{}", lit_f_a(k), ss, lit_f_b()))
         + lsum_of(&list_lit(k))
         + lsum_of(&list_const(k))
+        + ip_lits(k).iter().map(|a| ipsum_of(&a.parse().unwrap())).sum::<u32>()
 }
 
 /// the value `main()` of that compilation is meant to return
@@ -332,6 +343,25 @@ impl Spec {
 // ---------------------------------------------------------------- the real thing
 
 type Handle = TypedFunc<NoCtx, fn() -> u32>;
+type HandleCx = TypedFunc<Ctx<Cx>, fn() -> u32>;
+
+/// Runtimes with an odd id are built with a context type: their packages,
+/// handles and `into_func` closures are the `Ctx<C>` instantiations of the API
+/// (the scripts do not read the context).
+#[derive(Clone, Context)]
+struct Cx {
+    pub cxn: u32,
+}
+fn is_cx(r: u32) -> bool { r % 2 == 1 }
+
+enum Rt {
+    No(Runtime<NoCtx>),
+    Cx(Runtime<Ctx<Cx>>),
+}
+enum Pkg {
+    No(Package<NoCtx>),
+    Cx(Package<Ctx<Cx>>),
+}
 
 struct SendIt<T>(T);
 // SAFETY: used only to move a value to a thread that drops it while the
@@ -356,6 +386,8 @@ fn drop_maybe_on_thread<T: 'static>(x: T, thread: bool) {
 enum H {
     Handle(Handle),
     Func(Box<dyn Fn() -> u32>),
+    HandleCx(HandleCx),
+    FuncCx(Box<dyn Fn(&mut Cx) -> u32>),
     /// transient (while `into_func` consumes the handle)
     Gone,
 }
@@ -364,6 +396,8 @@ impl H {
         match self {
             H::Handle(h) => h.call(),
             H::Func(f) => f(),
+            H::HandleCx(h) => h.call(&mut Cx { cxn: 5 }),
+            H::FuncCx(f) => f(&mut Cx { cxn: 5 }),
             H::Gone => unreachable!(),
         }
     }
@@ -371,8 +405,8 @@ impl H {
 
 #[derive(Default)]
 struct World {
-    rts: BTreeMap<u32, Runtime<NoCtx>>,
-    pkgs: Vec<(u32, Package<NoCtx>)>,
+    rts: BTreeMap<u32, Rt>,
+    pkgs: Vec<(u32, Pkg)>,
     hs: Vec<(u32, H)>,
 }
 
@@ -399,6 +433,8 @@ fn script(k: u32, n: u32, uc: bool, uf: bool, ud: bool) -> String {
         s.push_str(&format!("\n    + ssum(\"{}\") + ssum(\"{}\") + ssum(SS)", lit_plain(k), lit_short(k)));
         s.push_str(&format!("\n    + ssum(f\"{}{{SS}}{}\")", lit_f_a(k), lit_f_b()));
         s.push_str(&format!("\n    + lsum({}) + lsum(SL)", roto_list(&list_lit(k))));
+        let [ip4, ip6] = ip_lits(k);
+        s.push_str(&format!("\n    + ipsum({ip4}) + ipsum({ip6})"));
         s.push_str("\n    + (match SLT.get(0) { Some(t) => val(t), None => 0, })");
     }
     if uc {
@@ -421,47 +457,61 @@ impl World {
                     fn val(t: Val<Tk>) -> u32 { t.0.val }
                     fn ssum(s: RotoString) -> u32 { ssum_of(&s) }
                     fn lsum(l: List<u32>) -> u32 { lsum_of(&l.to_vec()) }
+                    fn ipsum(a: IpAddr) -> u32 { ipsum_of(&a) }
                 })
                 .map_err(|e| format!("{e}"))?;
+                let rt = if is_cx(*r) { Rt::Cx(rt.with_context_type::<Cx>()?) } else { Rt::No(rt) };
                 self.rts.insert(*r, rt);
             }
             Op::RegConst(r) => {
                 let c = roto::Constant::new("REGC", "tracked constant", Val(Tk::new(tag_r(*r), val_r(*r))), roto::location!())
                     .map_err(|e| format!("{e}"))?;
-                self.rts.get_mut(r).unwrap().add(c).map_err(|e| format!("{e}"))?;
+                match self.rts.get_mut(r).unwrap() {
+                    Rt::No(rt) => rt.add(c).map_err(|e| format!("{e}"))?,
+                    Rt::Cx(rt) => rt.add(c).map_err(|e| format!("{e}"))?,
+                }
             }
             Op::RegClos(r) => {
                 let cap = Tk::new(tag_f(*r), val_f(*r));
-                self.rts
-                    .get_mut(r)
-                    .unwrap()
-                    .add(library! {
-                        let getclos = move || -> u32 { let c = &cap; c.val };
-                    })
-                    .map_err(|e| format!("{e}"))?;
+                let lib = library! {
+                    let getclos = move || -> u32 { let c = &cap; c.val };
+                };
+                match self.rts.get_mut(r).unwrap() {
+                    Rt::No(rt) => rt.add(lib).map_err(|e| format!("{e}"))?,
+                    Rt::Cx(rt) => rt.add(lib).map_err(|e| format!("{e}"))?,
+                }
             }
             Op::Compile { r, k, n, uc, uf, ud } => {
                 let src = script(*k, *n, *uc, *uf, *ud);
-                let pkg = FileTree::test_file(&format!("v{k}.roto"), &src, 0)
-                    .compile(&self.rts[r])
-                    .map_err(|e| format!("compile v{k}: {e}"))?;
+                let tree = FileTree::test_file(&format!("v{k}.roto"), &src, 0);
+                let pkg = match &self.rts[r] {
+                    Rt::No(rt) => Pkg::No(tree.compile(rt).map_err(|e| format!("compile v{k}: {e}"))?),
+                    Rt::Cx(rt) => Pkg::Cx(tree.compile(rt).map_err(|e| format!("compile v{k}: {e}"))?),
+                };
                 self.pkgs.push((*k, pkg));
             }
             Op::Get(k) => {
                 let p = self.pkgs.iter_mut().find(|(x, _)| x == k).unwrap();
-                let f: Handle = p.1.get_function("main").map_err(|e| format!("{e}"))?;
-                self.hs.push((*k, H::Handle(f)));
+                let h = match &mut p.1 {
+                    Pkg::No(p) => H::Handle(p.get_function("main").map_err(|e| format!("{e}"))?),
+                    Pkg::Cx(p) => H::HandleCx(p.get_function("main").map_err(|e| format!("{e}"))?),
+                };
+                self.hs.push((*k, h));
             }
             Op::CloneH(i) => {
-                let H::Handle(h) = &self.hs[*i].1 else { return Err("clone of a closure".into()) };
-                let h = (self.hs[*i].0, H::Handle(h.clone()));
-                self.hs.push(h);
+                let h = match &self.hs[*i].1 {
+                    H::Handle(h) => H::Handle(h.clone()),
+                    H::HandleCx(h) => H::HandleCx(h.clone()),
+                    _ => return Err("clone of a closure".into()),
+                };
+                self.hs.push((self.hs[*i].0, h));
             }
             Op::IntoFunc(i) => {
-                let H::Handle(h) = std::mem::replace(&mut self.hs[*i].1, H::Gone) else {
-                    return Err("into_func of a closure".into());
+                self.hs[*i].1 = match std::mem::replace(&mut self.hs[*i].1, H::Gone) {
+                    H::Handle(h) => H::Func(Box::new(h.into_func())),
+                    H::HandleCx(h) => H::FuncCx(Box::new(h.into_func())),
+                    _ => return Err("into_func of a closure".into()),
                 };
-                self.hs[*i].1 = H::Func(Box::new(h.into_func()));
             }
             Op::Call(i) => {
                 let _ = self.hs[*i].1.call();
@@ -553,21 +603,8 @@ fn run_history(h: &[Op], drv: Option<&mut Driver>, progress: bool) -> Outcome {
             spec.apply(op);
         }
         scribble(step);
-        // ---- observe the real state
-        let mut calls = vec![];
-        for (i, (k, f)) in w.hs.iter().enumerate() {
-            let got = f.call();
-            let want = spec.compiled[k].value;
-            let i_kind = if spec.is_fn[i] { "closure (into_func)" } else { "handle" };
-            calls.push(format!("ok:{got}"));
-            if got != want {
-                out.violations.push((
-                    format!("{i_kind} #{i} of version {k} returned {got}, it returned {want} when it was created"),
-                    format!("call-result-changed after {}", op.kind().trim_end_matches("@thread")),
-                    step,
-                ));
-            }
-        }
+        // ---- observe the real state: first the resource counts (a release that came too early is reported
+        // as such, before a call through the dangling handle can kill the process), then the calls
         let mut live = vec![];
         for (tag, name, min, max) in spec.expected_live() {
             let n = live_of(tag);
@@ -584,6 +621,22 @@ fn run_history(h: &[Op], drv: Option<&mut Driver>, progress: bool) -> Outcome {
                     format!("not-released {} after {}", &name[..1], op.kind().trim_end_matches("@thread")),
                     step,
                 ));
+            }
+        }
+        let mut calls = vec![];
+        if out.violations.is_empty() {
+            for (i, (k, f)) in w.hs.iter().enumerate() {
+                let got = f.call();
+                let want = spec.compiled[k].value;
+                let i_kind = if spec.is_fn[i] { "closure (into_func)" } else { "handle" };
+                calls.push(format!("ok:{got}"));
+                if got != want {
+                    out.violations.push((
+                        format!("{i_kind} #{i} of version {k} returned {got}, it returned {want} when it was created"),
+                        format!("call-result-changed after {}", op.kind().trim_end_matches("@thread")),
+                        step,
+                    ));
+                }
             }
         }
         if BAD_DROPS.load(Ordering::SeqCst) > 0 {
@@ -805,48 +858,56 @@ fn gen_boundary() -> Vec<Vec<Op>> {
     let full = |k: u32| Op::Compile { r: 0, k, n: 2, uc: true, uf: true, ud: true };
     let pre = vec![Op::Build(0), Op::RegConst(0), Op::RegClos(0)];
     let mut out: Vec<Vec<Op>> = vec![];
-    // the survivor: 0 = plain handle, 1 = clone (original dropped), 2 = closure, 3 = closure of a clone
-    for survivor in 0..4 {
-        for order in 0..3 {
-            for thread in [false, true] {
-                let mut h = pre.clone();
-                h.push(full(1));
-                h.push(Op::Get(1));
-                match survivor {
-                    0 => {}
-                    1 => {
-                        h.push(Op::CloneH(0));
-                        h.push(Op::DropH(0, thread));
+    // r = 0: a plain runtime; r = 1: a runtime with a context type (the `Ctx<C>` instantiations of
+    // get_function / call / into_func)
+    for r in [0u32, 1] {
+        let full = |k: u32| Op::Compile { r, k, n: 2, uc: true, uf: true, ud: true };
+        // the survivor: 0 = plain handle, 1 = clone (original dropped), 2 = closure, 3 = closure of a clone
+        for survivor in 0..4 {
+            for order in 0..3 {
+                for thread in [false, true] {
+                    if r == 1 && thread {
+                        continue;
                     }
-                    2 => h.push(Op::IntoFunc(0)),
-                    _ => {
-                        h.push(Op::CloneH(0));
-                        h.push(Op::IntoFunc(1));
-                        h.push(Op::DropH(0, thread));
+                    let mut h = vec![Op::Build(r), Op::RegConst(r), Op::RegClos(r)];
+                    h.push(full(1));
+                    h.push(Op::Get(1));
+                    match survivor {
+                        0 => {}
+                        1 => {
+                            h.push(Op::CloneH(0));
+                            h.push(Op::DropH(0, thread));
+                        }
+                        2 => h.push(Op::IntoFunc(0)),
+                        _ => {
+                            h.push(Op::CloneH(0));
+                            h.push(Op::IntoFunc(1));
+                            h.push(Op::DropH(0, thread));
+                        }
                     }
+                    match order {
+                        0 => {
+                            h.push(Op::DropP(1, thread));
+                            h.push(Op::DropR(r, thread));
+                        }
+                        1 => {
+                            h.push(Op::DropR(r, thread));
+                            h.push(Op::DropP(1, thread));
+                        }
+                        _ => {
+                            // hot reload in between: a second version is compiled and dropped again
+                            h.push(full(2));
+                            h.push(Op::Get(2));
+                            h.push(Op::DropP(1, thread));
+                            h.push(Op::DropH(1, thread));
+                            h.push(Op::DropP(2, thread));
+                            h.push(Op::DropR(r, thread));
+                        }
+                    }
+                    h.push(Op::Call(0));
+                    h.push(Op::DropH(0, thread));
+                    out.push(h);
                 }
-                match order {
-                    0 => {
-                        h.push(Op::DropP(1, thread));
-                        h.push(Op::DropR(0, thread));
-                    }
-                    1 => {
-                        h.push(Op::DropR(0, thread));
-                        h.push(Op::DropP(1, thread));
-                    }
-                    _ => {
-                        // hot reload in between: a second version is compiled and dropped again
-                        h.push(full(2));
-                        h.push(Op::Get(2));
-                        h.push(Op::DropP(1, thread));
-                        h.push(Op::DropH(1, thread));
-                        h.push(Op::DropP(2, thread));
-                        h.push(Op::DropR(0, thread));
-                    }
-                }
-                h.push(Op::Call(0));
-                h.push(Op::DropH(0, thread));
-                out.push(h);
             }
         }
     }
@@ -1041,14 +1102,14 @@ fn main() {
                 let o = run_history(&h, Some(&mut drv), true);
                 record(&mut rep, &h, &o, json!("replay"), 1);
             }
-            // histories without the model (run under valgrind)
+            // histories without the model (run under valgrind): the class representatives, then random ones
             "vg" => {
                 let seed: u64 = args[3].parse().unwrap();
                 let from: u64 = args[4].parse().unwrap();
                 let n: u64 = args[5].parse().unwrap();
                 for idx in from..from + n {
                     println!("START {idx}");
-                    let h = gen_random(&mut Prng::for_case(seed, idx));
+                    let h = vg_history(seed, idx);
                     let o = run_history(&h, None, false);
                     record(&mut rep, &h, &o, json!({"seed": seed, "index": idx, "valgrind": true}), idx);
                 }
@@ -1100,11 +1161,17 @@ fn crash_key(h: &[Op]) -> String {
     format!("in a history with {}", k.join(","))
 }
 
-/// Supporting evidence (thorough): a subset of the random histories under
+/// history number `idx` of the valgrind run: the boundary class representatives first, then random ones
+fn vg_history(seed: u64, idx: u64) -> Vec<Op> {
+    let b = gen_boundary();
+    if (idx as usize) < b.len() { b[idx as usize].clone() } else { gen_random(&mut Prng::for_case(seed, idx)) }
+}
+
+/// Supporting evidence (thorough): the class representatives and a subset of the random histories under
 /// valgrind memcheck — does freed JIT memory / a freed constant get touched?
 fn valgrind_subset(rep: &mut Report, seed: u64) {
     let exe = std::env::current_exe().unwrap();
-    let n = 40;
+    let n = gen_boundary().len() as u64 + 40;
     let out = std::process::Command::new("valgrind")
         .args(["--error-exitcode=99", "-q", "--smc-check=all"])
         .arg(&exe)
@@ -1121,13 +1188,13 @@ fn valgrind_subset(rep: &mut Report, seed: u64) {
                     let mut sub = Report::default();
                     sub.merge_json(&r);
                     rep.impl_violations.extend(sub.impl_violations);
-                    rep.notes.push(format!("valgrind memcheck: {ev} random histories, no invalid read/write/free reported"));
+                    rep.notes.push(format!("valgrind memcheck: {ev} histories (class representatives + random), no invalid read/write/free reported"));
                     rep.hist("valgrind", "histories-clean");
                 }
             } else if code == Some(99) {
                 let first: String = stderr.lines().take(12).collect::<Vec<_>>().join(" / ");
                 let last = stdout.lines().rev().find_map(|l| l.strip_prefix("START ")).and_then(|s| s.parse::<u64>().ok()).unwrap_or(0);
-                let h = gen_random(&mut Prng::for_case(seed, last));
+                let h = vg_history(seed, last);
                 rep.violation(
                     "valgrind memcheck reported an invalid memory access while running random histories",
                     "valgrind memcheck error",
